@@ -12,7 +12,7 @@ import (
 func GenC18Client(r *RNG) *CliPlan {
 	p := &CliPlan{Family: "c18-client"}
 	genCliCommon(r, p)
-	p.Srv = PeerCfg{InitialWindow: 1 << 20, MaxFrameSize: Pick(r, int64(-1), 16384, 16385, 65536), HeaderTableSize: Pick(r, int64(-1), 0, 100, 4096),
+	p.Srv = PeerCfg{InitialWindow: 1 << 20, MaxFrameSize: Pick(r, int64(-1), 16384, 16385, 65536), HeaderTableSize: Pick(r, int64(-1), 0, 100, 4096, 8192, 65536),
 		AutoWindow: true, ConnWindowBoost: 1 << 24, DrainGrants: true}
 	p.SrvMaxStreams = Pick(r, int64(-1), 1, 2, 3, 100)
 	n := 2 + r.Intn(5)
